@@ -579,6 +579,12 @@ func (t *Tr) loopHeader(li *loopInfo) {
 			t.checkCl(fmt.Sprintf("loop%d/init#%d", li.ord, k), s, "invariant "+inv.Src+" holds on entry", pos)
 		}
 	}
+	// implicit invariant of `for i := range slice` loops: the hidden index is >= -1
+	for _, phi := range phis {
+		if phi.Comment == "rangeindex" {
+			t.check(fmt.Sprintf("loop%d/auto-rangeindex/init", li.ord), fmt.Sprintf("(>= %s (- 1))", entryPhis[phi].S), "range index starts at -1", pos)
+		}
+	}
 	// havoc
 	mods, all, allGhost := t.loopMods(li)
 	if all {
@@ -600,6 +606,27 @@ func (t *Tr) loopHeader(li *loopInfo) {
 		cur[phi] = x
 		t.assumeTyped(x, phi.Type())
 	}
+	for _, phi := range phis {
+		if phi.Comment == "rangeindex" {
+			t.assume(fmt.Sprintf("(>= %s (- 1))", cur[phi].S))
+		}
+	}
+	// implicit frame invariant: heaps the function may not modify stay as at entry
+	// (on objects that existed at entry) at every iteration; checked at each back edge
+	if allowed, ok := t.frameAllowed(); ok {
+		li.frameOnly = map[string]bool{}
+		if all {
+			li.frameOnly = nil
+		} else {
+			for _, n := range mods {
+				li.frameOnly[n] = true
+			}
+		}
+		if f := t.frameFormula(t.cur, allowed, li.frameOnly); f != "true" {
+			t.assume(f)
+			li.hasFrame = true
+		}
+	}
 	if li.lc != nil {
 		env := t.loopEnv(li, cur, h)
 		for _, inv := range li.lc.Invariants {
@@ -620,10 +647,16 @@ func (t *Tr) loopHeader(li *loopInfo) {
 }
 
 func (t *Tr) loopBack(li *loopInfo, from *ssa.BasicBlock) {
-	if li.lc == nil {
+	h := li.header
+	hasAuto := false
+	for _, in := range h.Instrs {
+		if phi, ok := in.(*ssa.Phi); ok && phi.Comment == "rangeindex" {
+			hasAuto = true
+		}
+	}
+	if li.lc == nil && !hasAuto && !li.hasFrame {
 		return
 	}
-	h := li.header
 	idx := -1
 	for i, p := range h.Preds {
 		if p == from {
@@ -651,6 +684,25 @@ func (t *Tr) loopBack(li *loopInfo, from *ssa.BasicBlock) {
 	pos := token.NoPos
 	if len(from.Instrs) > 0 {
 		pos = from.Instrs[len(from.Instrs)-1].Pos()
+	}
+	for phi, v := range vals {
+		if phi.Comment == "rangeindex" {
+			t.check(fmt.Sprintf("loop%d/auto-rangeindex/preserve", li.ord), fmt.Sprintf("(>= %s (- 1))", v.S), "range index stays >= -1", pos)
+		}
+	}
+	if li.hasFrame {
+		if allowed, ok := t.frameAllowed(); ok {
+			if f := t.frameFormula(t.cur, allowed, li.frameOnly); f != "true" {
+				t.check(fmt.Sprintf("loop%d/auto-frame", li.ord), f, "heaps outside the modifies clause are unchanged after the iteration", pos)
+			}
+		}
+	}
+	if li.lc == nil {
+		for phi, v := range saved {
+			t.vals[phi] = v
+		}
+		t.cur, t.curReach, t.curBlock = saveCur, saveReach, saveBlock
+		return
 	}
 	for k, inv := range li.lc.Invariants {
 		s, err := env.evalClause(inv.E)
@@ -740,6 +792,9 @@ func (t *Tr) loopMods(li *loopInfo) (names []string, all bool, allGhost bool) {
 		}
 	}
 	for n := range set {
+		if strings.HasPrefix(n, "~") {
+			continue
+		}
 		names = append(names, n)
 	}
 	sort.Strings(names)
